@@ -30,13 +30,24 @@ PROP = dict(
         "arbitrary bytes are compared with the model for every family. json.Unmarshal into a Go string is modelled with "
         "escapes, surrogate pairs and the U+FFFD sanitation (goUnquote)",
         "boc.Cell / tlb.Any: the PARSE side is the BOC reader model of C01/C07 (compared on every cell document and its "
-        "mutations); the PRINT side needs the cell order chosen by the Go writer, which C01 leaves as the premise "
-        "order_valid — json_roundtrip_cell is stated for the writer's order and the printed text itself is checked by the "
-        "direct round-trip oracle only. ton.AccountID (raw form, C17): wrapper theorem with the inner codec as a parameter",
+        "mutations); the PRINT side is C01's model of the whole Go writer (order of importCell/reorderCells/"
+        "revisit + header arithmetic): json_roundtrip_cell_go_writer, whose premises are KeyInjOn (the writer's "
+        "de-duplication key, the hex hash, identifies the sub-cells: no collision inside the one cell) and the size limits; "
+        "the printed text itself is compared only through the direct round-trip oracle (the model does not print cells in the "
+        "driver). ton.AccountID: C17's byte-level model of its JSON form, theorem json_roundtrip_accountid = C17.json_roundtrip",
+        "the MsgAddr values of the model cannot express two states of the Go struct: an AddrVar whose AddrLen differs from "
+        "the length of Address (MarshalJSON prints Address, the parser recomputes AddrLen: such a value does not round-trip; "
+        "it cannot come from a TL-B decode) and nil AddrExtern / AddrVar pointers with the corresponding SumType "
+        "(MarshalJSON dereferences them: a panic on a hand-built value) — both outside the property's domain of decoded values",
+        "the two models of Fift hex (Json.toFift/fromFift here, fiftSpec/fiftParse of C06) are proved equal "
+        "(fift_models_agree; the same lemmas exist as Tongo.Bridge.fift_toFift / fift_fromFift in the bits slice), so the "
+        "byte-level theorems of C06 apply to the JSON forms",
         "abi.InMsgBody / ExtOutMsgBody: the envelope (object members, key folding, duplicate keys, null, wrong JSON types, "
         "OpCode range) is modelled and compared on hand-made and mutated documents; the registry of known body types and "
         "their struct-level JSON stay on the Go side (a named body is reported by name); in json_roundtrip_envelope_known "
-        "the body type's own JSON is a hypothesis (ValueText + its round trip)",
+        "the body type's own JSON is a hypothesis (ValueText + its round trip); it is instantiated on the one composite "
+        "record whose struct-level JSON is modelled (json_roundtrip_envelope_known_record, tlb.Anycast standing for a "
+        "registered type) — the real registered body types have no concrete theorem",
         "Maybe of a composite record is modelled for tlb.Maybe[tlb.Anycast] (encoding/json's struct codec for two uint32 "
         "fields); other composite records are not claimed",
         "tlb.HashmapE has an encoder only and is outside the statement",
@@ -48,8 +59,13 @@ PROP = dict(
         "(decimal_signed_out_of_range)",
         "msgaddress_extern_empty_not_roundtrip: zero-length addr_extern prints \"\" and parses as addr_none (known finding; the "
         "round-trip theorem excludes it through AddrDomain)",
-        "json_parse_total / json_valid cover the modelled families; Cell/Any and the envelopes: json_parse_total_cell (via C07 "
-        "parse_total), json_parse_total_envelope, json_valid_envelope; ton.AccountID: direct oracle go.json.mal only",
+        "json_parse_total is true BY CONSTRUCTION for 9 of its 12 conjuncts (integers, big, BitsN, Bits256, Int256, Grams, "
+        "SignedCoins, Magic, Maybe: neither the Go code nor the model has a panic point there); content: the Fift suffix index "
+        "and the Anycast slice expression (explicit panic points shown unreachable), Cell/Any via C07 parse_total "
+        "(json_parse_total_cell), envelopes (json_parse_total_envelope); ton.AccountID malformed input: direct oracle only",
+        "json_roundtrip_wrapped / json_roundtrip_via_string / json_roundtrip_envelope_known are generic wrapper forms with the "
+        "inner round trip as a hypothesis; concrete instances: json_roundtrip_cell_go_writer, json_roundtrip_accountid, "
+        "json_roundtrip_unknown_body_cell, json_roundtrip_envelope_known_record",
     ],
     level_text="Theorems for ALL inputs about the model: strconv read-back of %d for every bit size 1..64 with the exact range "
                "behaviour (decimal_roundtrip_unsigned/signed, out-of-range literals rejected), big integers of any size, "
@@ -58,7 +74,8 @@ PROP = dict(
                "strings of any length, MsgAddress for every address of the property's domain (all kinds, any anycast, "
                "workchain and length; the look-alike exclusion is proved to be exactly the ambiguous case), every printer's "
                "output accepted by the transcribed JSON scanner (json_valid), no parser panics on any input "
-               "(json_parse_total); cells through the BOC model (json_roundtrip_cell, relative to C01 order_valid), the "
+               "(json_parse_total); cells through the whole Go writer and reader of C01 (json_roundtrip_cell_go_writer), AccountID "
+               "(json_roundtrip_accountid = C17), the "
                "message-body envelopes (json_roundtrip_envelope_empty/unknown/known, json_roundtrip_unknown_body_cell end to "
                "end), Maybe of a composite record (json_roundtrip_maybe_anycast). The ~170 generated types are tied to the model by the regenerated table (174 decided "
                "obligations + generated_*_types_roundtrip quantify over the table). The model is tied to the code by exact "
